@@ -119,10 +119,17 @@ def execute(case: Dict[str, Any], M: Optional[Model] = None, built: Any = None, 
     try:
         try:
             via = case.get("via", "call")
+            gconf = None
             if built is not None:
                 b = built
             else:
-                b = prog.build(P, is_async=bool(case.get("async")), mc=case.get("build_mc", M.mc), decorate_attrs=(via != "config"))
+                PB = P
+                if via == "config" and case.get("group_conf"):
+                    # sites with equal attributes are configured through ONE entry keyed by a tag they share
+                    PB, gconf = prog.group_config(P)
+                b = prog.build(PB, is_async=bool(case.get("async")), mc=case.get("build_mc", M.mc), decorate_attrs=(via != "config"))
+                if PB is not P:
+                    b.prog = P
             if case.get("warm") and built is None:
                 # an earlier, unobserved call of the same instance (before any reconfiguration): whatever tawazi
                 # remembers from it must not influence the observed execution
@@ -134,7 +141,7 @@ def execute(case: Dict[str, Any], M: Optional[Model] = None, built: Any = None, 
                 except Exception:  # noqa: BLE001 - e.g. a missing argument; the observed call is judged on its own
                     pass
             if via == "config" and built is None:
-                conf = prog.config_dict(P)
+                conf = gconf if gconf is not None else prog.config_dict(P)
                 if "build_mc" in case:
                     # the limit in force is the reconfigured one, not the one given at construction
                     conf["max_concurrency"] = M.mc
